@@ -1,8 +1,14 @@
 import UtilModel.Core.Driver
+import UtilModel.Core.DriverH
 import UtilModel.CSync.Mutex
 import UtilModel.CSync.RWMutex
 import UtilModel.CSync.Monitors
 import UtilModel.Codec.Monitors
+import UtilModel.Seq.Monitors
+import UtilModel.CCall.Monitors
+import UtilModel.Conc.Monitors
+import UtilModel.Treiber.Monitors
+import UtilModel.LinkedList.Monitors
 /-! Registry of the models the driver can decide histories for. One line per model. -/
 namespace UtilModel
 
@@ -10,9 +16,18 @@ def csyncMons : List (MonEntry CSync.Obs) :=
   [MonEntry.ofMonitor "C01" CSync.monC01, MonEntry.ofMonitor "C02" CSync.monC02]
 
 def registry : List Entry := [
-  mkEntry "csync-rw" CSync.RW.model CSync.Obs.parse csyncMons,
-  mkEntry "csync-mutex" CSync.Mx.model CSync.Obs.parse csyncMons,
-  mkEntry "codec" Codec.model Codec.Obs.parse [MonEntry.ofMonitor "C19" Codec.monC19]
+  mkEntryH "csync-rw" CSync.RW.model CSync.Obs.parse csyncMons,
+  mkEntryH "csync-mutex" CSync.Mx.model CSync.Obs.parse csyncMons,
+  mkEntry "codec" Codec.model Codec.Obs.parse [MonEntry.ofMonitor "C19" Codec.monC19],
+  mkEntry "seq-ioseek" Seq.IOSeek.model Seq.IOSeek.Obs.parse [MonEntry.ofMonitor "C20" Seq.monC20Seek],
+  mkEntry "seq-iosizer" Seq.IOSizer.model Seq.IOSizer.Obs.parse [MonEntry.ofMonitor "C20" Seq.monC20Sizer],
+  mkEntry "seq-iocloser" Seq.IOCloser.model Seq.IOCloser.Obs.parse [MonEntry.ofMonitor "C20" Seq.monC20Closer],
+  mkEntry "seq-ioproxy" Seq.IOProxy.model Seq.IOProxy.Obs.parse [MonEntry.ofMonitor "C20" Seq.monC20Proxy],
+  mkEntry "seq-unique" Seq.Unique.model Seq.Unique.Obs.parse [MonEntry.ofMonitor "C20" Seq.monC20Unique],
+  mkEntry "ccall" CCall.model CCall.Obs.parse [MonEntry.ofMonitor "C17" CCall.monC17],
+  mkEntryH "conc" Conc.model Conc.Obs.parse [MonEntry.ofMonitor "C18" Conc.monC18] (cap := 20000),
+  mkEntry "lifo" Treiber.model Treiber.Obs.parse [MonEntry.ofMonitor "C12" Treiber.monC12] (cap := 1200),
+  mkEntry "linkedlist" LinkedList.model LinkedList.parseObs [MonEntry.ofMonitor "C12" LinkedList.monC12] (cap := 2000)
 ]
 
 end UtilModel
